@@ -157,6 +157,8 @@ def run(ctx):
         ctx.ob('2b lock-from-registry', 'K4-provenance', wpl.path, 'the lock taken by the walk comes from DbInner::get_tree (the registry clients use)', len(gt) >= 1, '')
     # 3. deferral
     shared.handover_order(ctx, '3')
+    # once the lock is released the postponed removal completes: the log worker keeps going while a deferred commit is queued
+    shared.more_work_signal(ctx, '3w')
     dc = ctx.body('db::DbInner::defer_commit')
     if dc:
         sites = lib.sites_reaching(dc, [shared.COPY_IDX, shared.COPY_BT, shared.CLEAN_IDX, shared.CLEAN_BT])
